@@ -247,6 +247,18 @@ func genC17(c *Ctx) {
 		c17Parse(c, "corpus", []byte(s))
 	}
 
+	// bare-hex UUIDs that are ALSO base64 text decoding to exactly one DER/BER value (32 characters -> 24
+	// octets: tag from the first digit, length 0x16 from the second and third: "?B[ab]..."), and ones that are
+	// base64 of a JSON-ish or PEM-ish start: the UUID row comes first in the format table and must win, in
+	// every version; likewise canonical forms that some other sniffer might claim
+	for _, first := range "0123456789abcdefABCDEF" {
+		for _, third := range "ab" {
+			for _, rest := range []string{"7b8109dad11d180b400c04fd430c8", "7b8109dad41d180b400c04fd430c8", "7b8109dad71d1b0b400c04fd430c8", "00000000000000000000000000000"} {
+				k.describe("corpus-hex-is-der", []byte(string(first)+"B"+string(third)+rest))
+			}
+		}
+	}
+
 	c17CallersCorpus(k)
 
 	// ---------- every version nibble x variant pattern x timestamp class x form x case x white space ----------
